@@ -85,13 +85,18 @@ pub trait Deserialize: DeserializeInner {
         // SAFETY: the entire vector will be filled with data read from the file,
         // or with zeroes if the file is shorter than the vector.
         #[allow(invalid_value)]
-        let mut aligned_vec = unsafe {
-            <Vec<MemoryAlignment>>::from_raw_parts(
-                std::alloc::alloc(std::alloc::Layout::from_size_align(capacity, align_to)?)
-                    as *mut MemoryAlignment,
-                capacity / align_to,
-                capacity / align_to,
-            )
+        let mut aligned_vec = if capacity == 0 {
+            // Zero-sized allocations are not allowed (and would be leaked)
+            <Vec<MemoryAlignment>>::new()
+        } else {
+            unsafe {
+                <Vec<MemoryAlignment>>::from_raw_parts(
+                    std::alloc::alloc(std::alloc::Layout::from_size_align(capacity, align_to)?)
+                        as *mut MemoryAlignment,
+                    capacity / align_to,
+                    capacity / align_to,
+                )
+            }
         };
 
         let bytes = unsafe {
@@ -110,9 +115,12 @@ pub trait Deserialize: DeserializeInner {
         unsafe {
             addr_of_mut!((*ptr).1).write(backend);
         }
-        // deserialize the data structure
+        // deserialize the data structure; if this fails (or panics) the
+        // backend must be dropped, as the MemCase will never be completed
+        let guard = BackendDropGuard(unsafe { addr_of_mut!((*ptr).1) });
         let mem = unsafe { (*ptr).1.as_ref().unwrap() };
         let s = Self::deserialize_eps(mem)?;
+        core::mem::forget(guard);
         // write the deserialized struct in the memcase
         unsafe {
             addr_of_mut!((*ptr).0).write(s);
@@ -157,9 +165,12 @@ pub trait Deserialize: DeserializeInner {
         unsafe {
             addr_of_mut!((*ptr).1).write(backend);
         }
-        // deserialize the data structure
+        // deserialize the data structure; if this fails (or panics) the
+        // backend must be dropped, as the MemCase will never be completed
+        let guard = BackendDropGuard(unsafe { addr_of_mut!((*ptr).1) });
         let mem = unsafe { (*ptr).1.as_ref().unwrap() };
         let s = Self::deserialize_eps(mem)?;
+        core::mem::forget(guard);
         // write the deserialized struct in the MemCase
         unsafe {
             addr_of_mut!((*ptr).0).write(s);
@@ -201,15 +212,31 @@ pub trait Deserialize: DeserializeInner {
             addr_of_mut!((*ptr).1).write(MemBackend::Mmap(mmap));
         }
 
+        // deserialize the data structure; if this fails (or panics) the
+        // backend must be dropped, as the MemCase will never be completed
+        let guard = BackendDropGuard(unsafe { addr_of_mut!((*ptr).1) });
         let mmap = unsafe { (*ptr).1.as_ref().unwrap() };
-        // deserialize the data structure
         let s = Self::deserialize_eps(mmap)?;
+        core::mem::forget(guard);
         // write the deserialized struct in the MemCase
         unsafe {
             addr_of_mut!((*ptr).0).write(s);
         }
         // finish init
         Ok(unsafe { uninit.assume_init() })
+    }
+}
+
+/// Drops in place the [`MemBackend`] already written in a partially initialized
+/// [`MemCase`] when ε-copy deserialization fails or panics, so that the loaded
+/// memory or the mapping is not leaked. It is forgotten on success.
+struct BackendDropGuard(*mut MemBackend);
+
+impl Drop for BackendDropGuard {
+    fn drop(&mut self) {
+        // SAFETY: the pointer refers to an initialized backend that nobody
+        // else will drop, as the enclosing MemCase is never completed.
+        unsafe { core::ptr::drop_in_place(self.0) }
     }
 }
 
